@@ -1,11 +1,17 @@
 package main
 
 import (
+	"bytes"
+	"crypto/sha256"
+	"encoding/json"
+	"fmt"
 	"go/ast"
 	"go/parser"
 	"go/token"
 	"os"
+	"os/exec"
 	"path/filepath"
+	"regexp"
 	"sort"
 	"strconv"
 	"strings"
@@ -45,6 +51,8 @@ func rewritePkg(ov *overlay, gen, kind, pkg string) {
 			die("vrange needs <pkgdir>=<expr>[+<expr>]")
 		}
 		rewriteRanges(ov, gen, kv[0], strings.Split(kv[1], "+"))
+	case "vorder":
+		rewriteVorder(ov, gen, pkg)
 	default:
 		die("rewrite %q not implemented", kind)
 	}
@@ -198,4 +206,153 @@ func rewriteRanges(ov *overlay, gen, pkg string, exprs []string) {
 	if nsites == 0 {
 		die("rewrite vrange: no range site over %v found in %s", exprs, pkg)
 	}
+}
+
+
+// rewriteVorder ("vorder:<pkgdir>"): every `range X` whose operand is a map
+// becomes `range vorder.Map(X)` (package verif_h/vorder). Which operands are
+// maps is decided by the compiler: all range sites are wrapped with the
+// map-only generic function, the package is compiled, the sites the compiler
+// rejects are reverted, until it compiles. The set of reverted sites is cached
+// by a hash of the package sources.
+func rewriteVorder(ov *overlay, gen, pkg string) {
+	dir := filepath.Join(*repo, pkg)
+	ents, err := os.ReadDir(dir)
+	must(err)
+	type fileInfo struct {
+		rel, abs, from string
+		src            []byte
+	}
+	var files []*fileInfo
+	h := sha256.New()
+	for _, e := range ents {
+		n := e.Name()
+		if e.IsDir() || !strings.HasSuffix(n, ".go") || strings.HasSuffix(n, "_test.go") {
+			continue
+		}
+		rel := filepath.Join(pkg, n)
+		abs := filepath.Join(*repo, rel)
+		if r, ok := ov.Replace[abs]; ok && r == "" {
+			continue
+		}
+		from := src(ov, rel)
+		b, err := os.ReadFile(from)
+		must(err)
+		if bytes.Contains(b, []byte("import \"C\"")) {
+			continue
+		}
+		files = append(files, &fileInfo{rel, abs, from, b})
+		h.Write([]byte(rel))
+		h.Write(b)
+	}
+	key := fmt.Sprintf("%x", h.Sum(nil)[:12])
+	cachePath := filepath.Join(*out, "vorder-cache.json")
+	cache := map[string][]string{}
+	if cb, err := os.ReadFile(cachePath); err == nil {
+		json.Unmarshal(cb, &cache)
+	}
+	reverted := map[string]bool{} // "rel:line"
+	cached := false
+	if l, ok := cache[key]; ok {
+		cached = true
+		for _, s := range l {
+			reverted[s] = true
+		}
+	}
+	vpath := modulePath() + "/verif_h/vorder"
+	write := func() int {
+		nsites := 0
+		for _, fi := range files {
+			fset := token.NewFileSet()
+			f, err := parser.ParseFile(fset, fi.from, fi.src, 0)
+			if err != nil {
+				die("vorder: parse %s: %v", fi.from, err)
+			}
+			var sp []splice
+			ast.Inspect(f, func(nd ast.Node) bool {
+				rs, ok := nd.(*ast.RangeStmt)
+				if !ok {
+					return true
+				}
+				line := fset.Position(rs.X.Pos()).Line
+				if reverted[fmt.Sprintf("%s:%d", fi.rel, line)] {
+					return true
+				}
+				// skip obvious non-maps cheaply: composite slice literals, calls to make([]..), integer literals
+				if _, isLit := rs.X.(*ast.BasicLit); isLit {
+					return true
+				}
+				lo, hi := fset.Position(rs.X.Pos()).Offset, fset.Position(rs.X.End()).Offset
+				sp = append(sp, splice{lo, hi, "vorder__.Map(" + string(fi.src[lo:hi]) + ")"})
+				return true
+			})
+			dst := filepath.Join(gen, "rewrite", fi.rel)
+			if len(sp) == 0 {
+				delete(ov.Replace, fi.abs)
+				if fi.from != fi.abs {
+					ov.Replace[fi.abs] = fi.from
+				}
+				continue
+			}
+			b := append([]byte{}, fi.src...)
+			sort.Slice(sp, func(i, j int) bool { return sp[i].from > sp[j].from })
+			for _, s := range sp {
+				b = append(append(append([]byte{}, b[:s.from]...), s.text...), b[s.to:]...)
+			}
+			// add the import on the line of the package clause (keeps line numbers)
+			pkgEnd := fset.Position(f.Name.End()).Offset
+			b = append(append(append([]byte{}, b[:pkgEnd]...), []byte("; import vorder__ \""+vpath+"\"")...), b[pkgEnd:]...)
+			must(os.MkdirAll(filepath.Dir(dst), 0o755))
+			must(os.WriteFile(dst, b, 0o644))
+			ov.Replace[fi.abs] = dst
+			nsites += len(sp)
+		}
+		return nsites
+	}
+	nsites := write()
+	if !cached {
+		// the harness package vorder must be visible to the compiler
+		ov.Replace[filepath.Join(*repo, "verif_h", "vorder", "vorder.go")] = filepath.Join(*verif, "harness", "vorder", "vorder.go")
+		re := regexp.MustCompile(`(?m)^([^\s:]+\.go):(\d+):\d+: `)
+		for iter := 0; iter < 40; iter++ {
+			tmp := filepath.Join(*out, "overlay-vorder.json")
+			ob, _ := json.Marshal(ov)
+			must(os.WriteFile(tmp, ob, 0o644))
+			cmd := exec.Command("go", "build", "-overlay", tmp, "-tags", "verif", "-gcflags=-e", "./"+pkg)
+			cmd.Dir = *repo
+			o, err := cmd.CombinedOutput()
+			if err == nil {
+				break
+			}
+			found := 0
+			for _, m := range re.FindAllStringSubmatch(string(o), -1) {
+				p := m[1]
+				if !filepath.IsAbs(p) {
+					p = filepath.Join(*repo, p)
+				}
+				for _, fi := range files {
+					if p == fi.abs || p == filepath.Join(gen, "rewrite", fi.rel) {
+						k := fmt.Sprintf("%s:%s", fi.rel, m[2])
+						if !reverted[k] {
+							reverted[k] = true
+							found++
+						}
+					}
+				}
+			}
+			if found == 0 {
+				die("vorder: %s does not compile and no range site explains it:\n%s", pkg, o)
+			}
+			nsites = write()
+		}
+		var l []string
+		for k := range reverted {
+			l = append(l, k)
+		}
+		sort.Strings(l)
+		cache[key] = l
+		cb, _ := json.MarshalIndent(cache, "", " ")
+		os.WriteFile(cachePath, cb, 0o644)
+	}
+	fmt.Fprintf(os.Stderr, "mkoverlay: vorder %s: %d map range sites rewritten, %d range sites left native\n", pkg, nsites, len(reverted))
 }
